@@ -158,8 +158,35 @@ pub fn json_documents() {
 #[cfg(kani)]
 pub fn json_documents() {}
 
+/// LARGE documents (bounded, native only): many containers side by side and deep chains -- an implementation that counts, caps or
+/// budgets containers cannot hide behind the small exhaustive domain of json_documents
+#[cfg(not(kani))]
+pub fn json_large_documents() {
+    rec::reset();
+    let shape = nd::below(6);
+    let n = match nd::below(8) { 0 => 1usize, 1 => 126, 2 => 127, 3 => 128, 4 => 129, 5 => 300, 6 => 1000, _ => 4097 };
+    let leaf = |i: usize| -> JValue { match i % 4 { 0 => serde_json::json!({ "id": i }), 1 => serde_json::json!({}), 2 => serde_json::json!([i, {}]), _ => serde_json::json!([]) } };
+    let doc: JValue = match shape {
+        0 => JValue::Array((0..n).map(|i| serde_json::json!({ "id": i })).collect()),                    // n records in a list
+        1 => JValue::Object((0..n).map(|i| (format!("k{i}"), serde_json::json!({ "v": [i] }))).collect()), // n members, each an object holding a list
+        2 => JValue::Array((0..n).map(leaf).collect()),                                                  // mixed empty / non-empty containers
+        3 => { let mut d = serde_json::json!(7); let depth = n.min(300); for i in 0..depth { d = if i % 2 == 0 { JValue::Array(vec![d]) } else { serde_json::json!({ "k": d }) }; } d } // a chain (<= 300 deep)
+        4 => JValue::Array((0..n.min(300)).map(|i| JValue::Array((0..3).map(|j| serde_json::json!({ "a": { "b": i + j } })).collect())).collect()), // depth 4, many objects
+        _ => JValue::Array((0..n).map(|i| JValue::Array(vec![serde_json::json!(i)])).collect()),         // n lists in a list
+    };
+    oblige!(kinds_agree(&doc), "C13:kind_without_consuming_equals_kind_of_the_consumed_view");
+    let back = JValue::from(doc.clone().into_value());
+    oblige!(back == doc, "C13:from_value_gives_back_the_same_document");
+    match deserr::deserialize::<JValue, JValue, Rec>(doc.clone()) {
+        Ok(j) => { oblige!(j == doc && rec::calls() == 0, "C13:deserr_impl_gives_back_the_same_document"); }
+        Err(_) => { oblige!(false, "C13:deserr_impl_never_fails_on_a_document_serde_json_can_hold"); }
+    }
+}
+#[cfg(kani)]
+pub fn json_large_documents() {}
+
 pub fn registry() -> Vec<(&'static str, crate::Body)> {
-    vec![("json_u64", json_u64 as crate::Body), ("json_i64", json_i64), ("json_f64", json_f64), ("json_null_bool", json_null_bool), ("json_documents", json_documents)]
+    vec![("json_u64", json_u64 as crate::Body), ("json_i64", json_i64), ("json_f64", json_f64), ("json_null_bool", json_null_bool), ("json_documents", json_documents), ("json_large_documents", json_large_documents)]
 }
 
 #[cfg(kani)]
